@@ -602,3 +602,61 @@ func clip(s string) string {
 	}
 	return s
 }
+
+// TestC18DeepNames: the overall length bound (255 bytes) on names that can only be reached through a chain of
+// registered parents: every label is fine, the parents exist, only the sum is too long.
+func TestC18DeepNames(t *testing.T) {
+	theT = t
+	col := ev.New("C18", "deep-names",
+		"complete enumeration: under the TLD com three nested 63-byte labels are registered (195-byte name), then every length 1..63 of a fourth-level label (total 197..259 bytes) and, below a registered 4-level name of 250 bytes, fifth-level labels of 1..8 bytes are probed with isAvailable and register (by the owner of all parents) and as CNAME data; accepted iff the whole name is at most 255 bytes; non-trivial = a total length within 3 of the bound")
+	defer func() { col.Flush(true) }()
+	h := ev.NewHistory()
+	evals, nt := 0, 0
+	runCase(t, col, h, func() {
+		w := newC18World(h, col)
+		defer w.close()
+		lab := func(ch byte, n int) string { return strings.Repeat(string([]byte{ch}), n) }
+		parent := "com"
+		for i, ch := range []byte{'a', 'b', 'c'} {
+			parent = lab(ch, 63) + "." + parent
+			if o := w.register(w.owner, parent, w.users[0].ScriptHash(), hundredYearsSec); !o.Halt {
+				panic(chainkit.HarnessError{Msg: fmt.Sprintf("c18 deep: registering level %d: %s", i+2, o)})
+			}
+		}
+		probe := func(name string) {
+			want := len(name) <= 255
+			evals++
+			if d := len(name) - 255; d >= -3 && d <= 3 {
+				nt++
+			}
+			for _, m := range []string{"isAvailable", "register"} {
+				var o *chainkit.Outcome
+				if m == "isAvailable" {
+					o = w.call(nil, "isAvailable", name)
+				} else {
+					o = w.call(w.owner, "register", name, w.users[0].ScriptHash(), "m@nspcc.io", int64(1), int64(2), int64(100000), int64(3))
+				}
+				if o.Halt != want {
+					fail("C18: %s of a %d-byte name (every label well formed, every parent registered) -> %s, expected accepted=%v", m, len(name), o, want)
+				}
+			}
+			if o := w.call(w.owner, "addRecord", "probe.com", recCNAME, name); o.Halt != want {
+				fail("C18: CNAME data of %d bytes -> %s, expected accepted=%v", len(name), o, want)
+			}
+		}
+		for n := 1; n <= 63; n++ {
+			probe(lab('d', n) + "." + parent)
+		}
+		deep := lab('d', 54) + "." + parent // 54+1+195 = 250
+		if o := w.register(w.owner, deep, w.users[0].ScriptHash(), hundredYearsSec); !o.Halt {
+			panic(chainkit.HarnessError{Msg: "c18 deep: registering the 250-byte name: " + o.String()})
+		}
+		for n := 1; n <= 8; n++ {
+			probe(lab('e', n) + "." + deep)
+		}
+		h.Op("lengths 197..259 at level 5, 252..259 at level 6")
+		h.NonTrivial()
+	})
+	col.Bulk(evals, nt)
+	col.SetExhaustive(true)
+}
